@@ -146,6 +146,38 @@ pub fn run_fresh(script: &Script) -> Result<ScriptResult, SubErr> {
     serde_json::from_slice(&out.stdout).map_err(|e| SubErr::Other(format!("unparsable subrun output: {}", e)))
 }
 
+use std::collections::HashMap;
+
+/// Addresses differ between processes: replace them by first-occurrence indices per iteration.
+pub fn normalise(r: &RunResult) -> RunResult {
+    let mut out = r.clone();
+    for rec in out.records.iter_mut() {
+        let mut ids: HashMap<i64, i64> = HashMap::new();
+        for n in rec.notes.iter_mut() {
+            if n.0 == interp::NOTE_LAZY_ADDR {
+                let k = ids.len() as i64;
+                n.2 = *ids.entry(n.2).or_insert(k);
+            }
+        }
+        // loom destroys the thread-locals of a thread (and the lazy statics of an execution) in
+        // hash-map order: the relative order of these destructor notes is not part of the fingerprint
+        let mut i = 0;
+        while i < rec.notes.len() {
+            let mut j = i;
+            let kind = rec.notes[i].0;
+            while (kind == interp::NOTE_TLS_DROP || kind == interp::NOTE_LAZY_DROP) && j < rec.notes.len() && rec.notes[j].0 == kind {
+                j += 1;
+            }
+            if j > i + 1 {
+                rec.notes[i..j].sort();
+            }
+            i = j.max(i + 1);
+        }
+    }
+    out
+}
+
+
 /// A scratch file path under <root>/build/tmp (never /tmp), unique per process and call.
 pub fn scratch_file(tag: &str) -> std::path::PathBuf {
     use std::sync::atomic::{AtomicUsize, Ordering};
